@@ -144,7 +144,7 @@ def check_label(case) -> Result:
                 r.fail('a label reaches atoms inside modifications only when explicitly requested', 'C12/label/default-reaches-atoms-inside-modifications', **ctx)
             # average mode: the unlabelled mass uses tabulated average masses of named modifications, the labelled one their
             # compositions (C03 tolerance: 1e-3 per tabulated modification + 5 ppm)
-            n_tab = sum(mm for t, mm in mods if refmods.resolve(t)['kind'] in ('unimod', 'psimod', 'glycan'))
+            n_tab = sum(mm * refmods.resolve(t).get('units', 1) for t, mm in mods if refmods.resolve(t)['kind'] in ('unimod', 'psimod', 'glycan'))  # a glycan uses one table entry per monosaccharide unit
             modsum = sum(abs(refmods.resolve(t)['mono'] * mm) for t, mm in mods)
             tol = (1e-5 + 2e-6 * n_tab) if mono else 2e-3 + 2e-4 * z + 1e-3 * n_tab + 5e-6 * modsum
             if abs((m1 - m0) - exp) > tol:
